@@ -28,6 +28,7 @@ type HarnessSpec struct {
 	StepBudget int64    `json:"step_budget,omitempty"`
 	MaxPaths   int      `json:"max_paths,omitempty"`
 	MaxSplit   int      `json:"max_split,omitempty"`
+	MaxWallS   int      `json:"max_wall_s,omitempty"`
 	SelfCheck  bool     `json:"selfcheck,omitempty"` // concrete engine-vs-native validation harness
 	Anchors    []string `json:"anchors,omitempty"`   // functions that must be executed
 	What       string   `json:"what,omitempty"`
@@ -288,7 +289,7 @@ func cmdCheck(args []string) {
 	}
 	var results []hres
 	exitCode := 0
-	var engineErrs, boundNotes, vacuous []string
+	var engineErrs, boundNotes, vacuous, inconNotes []string
 	totPaths, totDec, totIncon := 0, int64(0), 0
 	var totQ SolverStats
 	funcsAll := map[string]int{}
@@ -326,6 +327,13 @@ func cmdCheck(args []string) {
 			ex.maxSplit = hs.MaxSplit
 		}
 		ex.sampleSeed = seed
+		ex.maxWall = 10 * time.Minute
+		if tierN == 1 {
+			ex.maxWall = 90 * time.Minute
+		}
+		if hs.MaxWallS > 0 {
+			ex.maxWall = time.Duration(hs.MaxWallS) * time.Second
+		}
 		st := ex.Run()
 		results = append(results, hres{hs, st})
 		fmt.Printf("  %-28s paths=%d %v decisions=%d queries(sat/unsat/unk)=%d/%d/%d solver=%.1fs wall=%.1fs\n",
@@ -349,6 +357,9 @@ func cmdCheck(args []string) {
 		}
 		for _, e := range st.BoundNotes {
 			boundNotes = append(boundNotes, hs.Name+": "+e)
+		}
+		for _, e := range st.InconNotes {
+			inconNotes = append(inconNotes, hs.Name+": "+e)
 		}
 		for _, l := range hs.Reach {
 			if st.Reached[l] == 0 {
@@ -528,6 +539,9 @@ func cmdCheck(args []string) {
 	}
 	if totIncon > 0 {
 		fmt.Printf("INCONCLUSIVE %d solver queries returned unknown/timeout; those branches were kept / assertions not decided\n", totIncon)
+		for _, e := range inconNotes {
+			fmt.Println("  INCONCLUSIVE", e)
+		}
 	}
 	if len(engineErrs) > 0 || len(vacuous) > 0 || mismatches > 0 || totQ.Errors > 0 {
 		exitCode = 2
@@ -573,6 +587,7 @@ func cmdCheck(args []string) {
 		"functions_encoded":             fnames,
 		"solver_queries":                map[string]interface{}{"sat": totQ.Sat, "unsat": totQ.Unsat, "unknown": totQ.Unknown, "errors": totQ.Errors, "solver_seconds": totQ.Seconds},
 		"inconclusive":                  totIncon,
+		"inconclusive_notes":            inconNotes,
 		"out_of_bound":                  boundNotes,
 		"engine_errors":                 engineErrs,
 		"native_replays":                map[string]int{"validated": validated, "mismatches": mismatches, "spurious_candidates": spurious, "known_findings": knownHits, "violations": violations},
